@@ -17,6 +17,8 @@ def sweeps(ctx):
         ("pct", 4, 150 if q else 3000, ["txs=3..7", "workers=2,3", "strat=pct"]),
         # dependency chains with data-dependent write locations (write sets that change between
         # incarnations, withdrawn writes) under straggler schedules (one worker frozen mid-task)
+        # existing-empty fee recipient (a zero reward still touches it), all transaction kinds
+        ("emptyben", 7, 250 if q else 4000, ["txs=2..6", "workers=1,2,3", "opts=invalid,destroy,create,ben,shared,emptyben"]),
         ("slowdb", 6, 400 if q else 8000, ["txs=3..6", "workers=2,3", "opts=shared,ben,destroy", "strat=slowdb"]),
         ("chain", 5, 1200 if q else 20000, ["txs=3..5", "workers=2,3", "opts=chain", "strat=straggler"]),
     ]
